@@ -60,17 +60,30 @@ func genA(t *rapid.T) CaseA {
 	c.Cfg.IntervalUS = rapid.SampledFrom([]int{1, 10, 1000, 0}).Draw(t, "interval")
 	n := rapid.IntRange(5, vt.N(60, 200)).Draw(t, "nops")
 	win := rapid.SampledFrom([]int{4, 10, 16}).Draw(t, "window")
+	early := 12
+	if rapid.IntRange(0, 7).Draw(t, "many") == 0 {
+		// more than half a name-index leaf (372 records of 11 bytes in a 4096-byte node) on one object: deletes then leave the
+		// leaf above every rebalancing threshold
+		win = rapid.IntRange(190, 300).Draw(t, "manyNames")
+		early = win
+		n += win
+	}
 	for i := 0; i < n; i++ {
 		op := AOp{Obj: rapid.IntRange(0, 1).Draw(t, "obj")}
+		if early > 12 && i < early {
+			op.Obj = 0
+		}
 		switch k := rapid.SampledFrom([]string{"w", "w", "w", "d", "d", "toggle"}).Draw(t, "k"); {
-		case i < 12:
+		case i < early:
 			op.K, op.Name = "w", i%win // reach dense storage early
 		case k == "toggle":
 			op.K, op.T = "toggle", rapid.SampledFrom(toggles).Draw(t, "toggle")
 		default:
 			op.K, op.Name = k, rapid.IntRange(0, win-1).Draw(t, "name")
 		}
-		if op.K == "w" {
+		if op.K == "w" && early > 12 && i < early {
+			op.A = &hist.AttrVal{Kind: "i8", Seed: i}
+		} else if op.K == "w" {
 			op.A = &hist.AttrVal{Kind: rapid.SampledFrom([]string{"i32", "f64", "str", "i8", "[]f64"}).Draw(t, "akind"), Seed: rapid.IntRange(0, 999).Draw(t, "aseed")}
 			if op.A.Kind == "str" {
 				op.A.N = rapid.IntRange(0, 40).Draw(t, "alen")
@@ -120,6 +133,9 @@ func classifyA(c CaseA) (bool, []string) {
 	if tog > 0 {
 		labels = append(labels, "has_toggle")
 	}
+	if maxLive > 186 {
+		labels = append(labels, "leaf_more_than_half_full")
+	}
 	return denseDelete, labels
 }
 
@@ -139,6 +155,14 @@ func (c Cfg) options() []interface{} {
 		return []interface{}{hdf5.WithSmartRebalancing(hdf5.SmartAutoDetect(true), hdf5.SmartAutoSwitch(true), hdf5.SmartMinFileSize(uint64(c.Batch+3)), hdf5.SmartAllowedModes("lazy", "incremental"))}
 	}
 	return nil
+}
+
+// attrName: the small pool of assorted names, then generated ones.
+func attrName(i int) string {
+	if i < len(attrNames) {
+		return attrNames[i]
+	}
+	return fmt.Sprintf("attr_%03d", i)
 }
 
 // runHistory executes the history under the given options (toggles only when withToggles) and observes the file.
@@ -161,16 +185,16 @@ func runHistory(c CaseA, file string, opts []interface{}, withToggles bool) (*ob
 		}
 	}
 	for i, op := range c.Ops {
-		if op.Obj < 0 || op.Obj > 1 || op.Name < 0 || op.Name >= len(attrNames) {
+		if op.Obj < 0 || op.Obj > 1 || op.Name < 0 || op.Name >= 400 {
 			return nil, nil, "SKIP"
 		}
 		switch op.K {
 		case "w":
-			if st := ex.Apply(hist.Op{K: "attr", Path: targets[op.Obj], Name: attrNames[op.Name], A: op.A}); st.Broken != "" {
+			if st := ex.Apply(hist.Op{K: "attr", Path: targets[op.Obj], Name: attrName(op.Name), A: op.A}); st.Broken != "" {
 				return nil, ex, fmt.Sprintf("op %d: %s", i, st.Broken)
 			}
 		case "d":
-			if st := ex.Apply(hist.Op{K: "delattr", Path: targets[op.Obj], Name: attrNames[op.Name]}); st.Broken != "" {
+			if st := ex.Apply(hist.Op{K: "delattr", Path: targets[op.Obj], Name: attrName(op.Name)}); st.Broken != "" {
 				return nil, ex, fmt.Sprintf("op %d: %s", i, st.Broken)
 			}
 		case "toggle":
@@ -422,10 +446,10 @@ func runB(c CaseB) vt.Verdict {
 // ---- (c) detector + smart rebalancer evaluate over generated operation streams --------------------------------------
 
 type CaseC struct {
-	Ops     []int `json:"ops"`     // 0 read 1 write 2 delete
-	GapsMS  []int `json:"gaps_ms"` // time between ops (cycled)
-	FileMB  int   `json:"file_mb"`
-	MinConf float64 `json:"min_conf"`
+	Ops     []int    `json:"ops"`     // 0 read 1 write 2 delete
+	GapsMS  []int    `json:"gaps_ms"` // time between ops (cycled)
+	FileMB  int      `json:"file_mb"`
+	MinConf float64  `json:"min_conf"`
 	Allowed []string `json:"allowed"`
 }
 
